@@ -37,6 +37,9 @@ type KnownFinding struct {
 	Status   string `json:"status"` // "known" or "fixed"
 	What     string `json:"what"`
 	Commit   string `json:"commit,omitempty"`
+	// Found, when set, must be a substring of the violation's "found" text: the finding then covers exactly the
+	// recorded construct, and a different violation of the same obligation is still reported.
+	Found string `json:"found,omitempty"`
 }
 
 type Result struct {
@@ -111,7 +114,7 @@ func (r *Result) Finish() int {
 		case OK:
 			discharged++
 		case Violated:
-			if _, ok := knownByKey[o.Key]; ok {
+			if k, ok := knownByKey[o.Key]; ok && (k.Found == "" || strings.Contains(o.Detail, k.Found)) {
 				kf = append(kf, o)
 			} else {
 				viol = append(viol, o)
